@@ -608,3 +608,13 @@ builtin_wrappers! {
 pub fn media_merge_lists(a: &[MediaQuery], b: &[MediaQuery]) -> Option<Vec<MediaQuery>> {
     crate::Visitor::verif_merge_media_queries(a, b)
 }
+
+/// Hex colour literal: `lexer` holds `#` followed by the digits, cursor on the first digit
+pub fn parse_hex_color(lexer: VLexer, options: &crate::Options<'_>) -> (Result<crate::color::Color, Span>, VLexer) {
+    let span = lexer.0.current_span();
+    let path = std::path::Path::new("");
+    let mut p = crate::parse::ScssParser::new(lexer.0, options, span, path);
+    let r = err_span(crate::parse::ValueParser::verif_parse_hex_color_contents(&mut p));
+    let toks = std::mem::replace(&mut p.toks, Lexer::verif_from_tokens(Vec::new(), span, true));
+    (r, VLexer(toks))
+}
